@@ -15,3 +15,7 @@
 #endif
 #include "env/base.h"
 #include "contracts/framing.h"
+#ifdef XF_LIFE
+#include "contracts/framing_life.h"
+struct xcm_socket *nondet_sub(void);
+#endif
